@@ -12,15 +12,20 @@ from . import common as C
 from . import composites as K
 
 EXPLANATION = (
+    "R15.4 both dispatch tables are walked row by row on descriptors of the special forms the grammar adds (a TypeVar, type[int], Callable[[int], str], "
+    "Callable[..., int], bare Callable, Any, object, Ellipsis, tuple[()]): each predicate is evaluated abstractly from its source (PredEval, origin() interpreted), "
+    "and none may raise before a row or the fallback takes the form. R15.5 a routine constructor that unpacks k type arguments is reachable only for forms with at "
+    "least (exactly) k. R15.6 an annotation whose type arguments are not annotations (the parameter list of a parameterised Callable) satisfies the leaf guard of "
+    "the graph walk, and on forwardref()'s non-string branch the reference object is never passed to a helper that applies str methods to it. "
     "R15.1 producer/consumer agreement on the graph's skip set: get_type_graph creates no node for children in its skip set (extracted from its source), so "
     "every annotation in that set that is legal as a type argument must either be seeded in the routine context by both factories with a pass-through routine, "
     "or every context lookup keyed by a type argument in a routine constructor must be the tolerant form (get + no-op fallback). R15.2 totality of dispatch: both "
-    "tables route unresolvable annotations and None to pass-through/None routines, _get_unmarshaller ends in an unconditional fallback, and args() normalises "
+    "tables route unresolvable annotations and None to pass-through/None routines, the dispatcher ends in an unconditional fallback, and args() normalises "
     "every TypeVar (bound / constraints / Any). R15.3 the factories return a pass-through routine when the graph is empty and structured routines fall back to a "
     "warned no-op for fields whose type has no routine."
 )
 ASSUMPTIONS = [
-    "absence of errors for every annotation of the grammar is not decided: hashability of annotations such as Callable[[int], str], Ellipsis revisits and bare TypeVar roots are value-level (ND)",
+    "absence of errors for *every* annotation of the grammar to depth 3 is not decided; the special forms are decided one by one on descriptors, compositions through the per-node dispatch",
     "repeatability after cache clearing is a history statement (ND)",
     "constants.empty is a sentinel, not a legal type argument",
 ]
@@ -28,7 +33,163 @@ TRUSTED = oracle.TRUSTED
 SENTINELS = {"typelib.constants.empty", "inspect.Parameter.empty"}
 
 
+def grammar_forms():
+    """Descriptors of the annotation forms C15 adds to the universe (besides the container catalogue)."""
+    TA = C.TypeArg
+    return [
+        TA("typing.TypeVar", flags=frozenset({"instance"})),
+        TA("builtins.type", True, ("builtins.int",)),
+        TA("collections.abc.Callable", True, ("[]", "builtins.str")),
+        TA("collections.abc.Callable", True, ("...", "builtins.int")),
+        TA("typing.Callable"),
+        TA("collections.abc.Callable"),
+        TA("typing.Any"),
+        TA("builtins.object"),
+        TA("builtins.Ellipsis"),
+        TA("builtins.tuple", True, ()),
+    ]
+
+
+def r15_4(prog: Program, rep: Report):
+    """No predicate of the dispatch tables raises on a form of the grammar before a row (or the fallback) takes it:
+    predicates are evaluated abstractly (PredEval, origin() interpreted from its source) row by row."""
+    pe = C.PredEval(prog)
+    pe.interpret_origin = True
+    n = 0
+    for d in ("marshal", "unmarshal"):
+        rows = C.handlers(prog, d)
+        disp = C.dispatcher(prog, d)
+        for a in grammar_forms():
+            verdict = None
+            for r in rows:
+                v = pe.accepts(r.pred, a)
+                if v == ("raises",):
+                    verdict = ("raises", r)
+                    break
+                if v is None:
+                    verdict = ("unknown", r)
+                    break
+                if pe.truthy(v):
+                    verdict = ("row", r)
+                    break
+            n += 1
+            key = f"{d}:{a.label()}"
+            if verdict is None or verdict[0] == "row":
+                rep.held("R15.4", key, disp.loc, f"{a.label()} is taken by {'the fallback' if verdict is None else verdict[1].pred_name} without any predicate raising")
+            elif verdict[0] == "raises":
+                rep.violated("R15.4", key, disp.loc, f"building a routine for {a.label()} raises: no earlier row takes it and predicate {verdict[1].pred_name} applies issubclass to origin() of it, which is not a class (TypeError: issubclass() arg 1 must be a class)")
+            else:
+                rep.undecided("R15.4", key, disp.loc, f"{a.label()}: predicate {verdict[1].pred_name} could not be evaluated")
+    return n
+
+
+def _required_args(prog, cls):
+    """(required, exact) number of type arguments the constructor of a routine class unpacks from args(t)."""
+    import ast
+
+    best = None
+    seen = set()
+    for c in prog.mro(cls):
+        init = c.methods.get("__init__")
+        if init is None or init.qualname in seen:
+            continue
+        seen.add(init.qualname)
+        for n in ast.walk(init.node):
+            if isinstance(n, ast.Assign) and len(n.targets) == 1 and isinstance(n.targets[0], (ast.Tuple, ast.List)):
+                src = ast.unparse(n.value)
+                if "args(" in src or "__args__" in src:
+                    elts = n.targets[0].elts
+                    starred = any(isinstance(x, ast.Starred) for x in elts)
+                    req = len(elts) - (1 if starred else 0)
+                    if best is None or req > best[0]:
+                        best = (req, not starred, f"{init.module.relpath}:{n.lineno}")
+    return best
+
+
+def r15_5(prog: Program, rep: Report):
+    """A routine constructor that unpacks the type arguments must be reachable only for forms with that many arguments."""
+    pe = C.PredEval(prog)
+    forms = [a for a in C.catalogue() if a.subscripted] + [C.TypeArg("builtins.tuple", True, ())]
+    n = 0
+    for d in ("marshal", "unmarshal"):
+        rows = C.handlers(prog, d)
+        for a in forms:
+            kind, r = C.route(prog, pe, rows, a)
+            if kind != "row" or r.routine is None:
+                continue
+            need = _required_args(prog, r.routine)
+            if need is None:
+                continue
+            n += 1
+            have = len(a.args)
+            ok = have == need[0] if need[1] else have >= need[0]
+            rep.check(ok, "R15.5", f"{d}:{a.label()}->{r.routine.name}", need[2], f"{r.routine.name} unpacks {need[0]} type argument(s); {a.label()} has {have}", f"{a.label()} is routed to {r.routine.name}, whose constructor unpacks {'exactly' if need[1] else 'at least'} {need[0]} type argument(s) but the form has {have}: construction raises ValueError (not enough values to unpack)")
+    return n
+
+
+def r15_6(prog: Program, rep: Report):
+    """Graph walk vs. the forms that are served by pass-through routines: (a) an annotation whose type arguments are not
+    annotations (the parameter *list* of Callable[[int], str] is unhashable) must be a leaf of the walk; (b) a revisited
+    member that is not a type (`...`, a TypeVar) must never take the cycle cut, which names a class."""
+    f, ps = c09.graph_paths(prog)
+    q = f.qualname
+    pe = C.PredEval(prog)
+    pe.interpret_origin = True
+    UNWRAP = f"{C.INSP}.unwrap"
+
+    def abstract(term):
+        return T.rewrite(term, lambda x: ("param", "U") if T.is_call_to(x, UNWRAP) else None)
+
+    # (a) leaf paths: iterations that add the parent and continue without asking _level for members
+    leaf_conds = []
+    for p in ps:
+        if not any(e[0] == "while" and e[2] == 1 for e in p.events):
+            continue
+        asked = any(T.is_call_to(c, "typelib.graph._level") for c in p.calls())
+        added = any(c[1][0] == "attr" and c[1][2] == "add" and T.is_call_to(c[1][1], "graphlib.TopologicalSorter") for c in p.calls())
+        if added and not asked:
+            gs = [(g, pol) for g, pol in p.guards() if T.contains(g, lambda x: x[0] == "call" and (T.refname(x[1]) or "").startswith(C.INSP + ".") and T.refname(x[1]) != UNWRAP and bool(x[2]) and T.is_call_to(x[2][0], UNWRAP))]
+            if gs:
+                leaf_conds.append(gs)
+    with_bad_members = [a for a in grammar_forms() if a.subscripted and "[]" in a.args]
+    for a in with_bad_members:
+        leaf = False
+        for gs in leaf_conds:
+            vals = [pe.val(abstract(g), {"U": a}, 0) for g, pol in gs]
+            if all(v is not None and v != ("raises",) and bool(pe.truthy(v)) == pol for v, (g, pol) in zip(vals, gs)):
+                leaf = True
+        rep.check(leaf, "R15.6", f"{q}#leaf:{a.label()}", f.loc, f"{a.label()} is a leaf of the graph walk (its parameter list is never treated as a member annotation)", f"the graph walk asks _level() for the members of {a.label()}: its first type argument is a list, which is unhashable (visited set, memoised unwrap) — construction raises TypeError")
+    # (b) a non-string reference never reaches the string-splitting module resolver: a revisited member that is not a
+    # class and has no __module__ (`...` of a second variadic tuple) is cut like any other and named through forwardref()
+    fr = prog.function("typelib.py.refs.forwardref")
+    ref = ("param", fr.params[0])
+    STR_ONLY = ("split", "rsplit", "partition", "rpartition", "startswith", "endswith", "replace", "strip")
+    bad = []
+    sites = 0
+    for pth in P.paths_of(prog, fr):
+        nonstr = any(T.is_call_to(g, "builtins.isinstance") and g[2] == (ref, ("ref", "builtins.str")) and not pol for g, pol in pth.guards())
+        if not nonstr:
+            continue
+        for c in pth.calls():
+            callee = prog.functions.get(T.refname(c[1]) or "")
+            if callee is None or not c[2] or c[2][0] != ref:
+                continue
+            sites += 1
+            p0 = ("param", callee.params[0])
+            uses = [x[2] for cp in P.paths_of(prog, callee) for tm in cp.all_terms() for x in T.walk(tm) if x[0] == "attr" and x[1] == p0 and x[2] in STR_ONLY]
+            guarded = any(T.is_call_to(g, "builtins.isinstance") and g[2][:1] == (p0,) for cp in P.paths_of(prog, callee) for g, _ in cp.guards())
+            if uses and not guarded:
+                bad.append(f"{callee.name}({fr.params[0]}, …) uses .{uses[0]}()")
+    rep.check(not bad, "R15.6", fr.qualname, fr.loc, f"on the branch where the reference is not a string, no string-only helper receives it ({sites} call sites)", f"forwardref() hands the non-string reference itself to a helper that treats it as text ({bad[0] if bad else ''}): when neither the caller nor the object supplies a module (`...` revisited in a second variadic tuple) construction raises AttributeError", detail="nonstr-ref")
+
+
 def run(prog: Program, rep: Report, tier: str):
+    rep.rule("R15.4", "no dispatch predicate raises on a form of the annotation grammar (abstract evaluation, both tables)", floor=20)
+    rep.rule("R15.5", "routine constructors unpack no more type arguments than the routed forms have", floor=10)
+    rep.rule("R15.6", "graph walk: non-annotation arguments are never members; a non-string reference never reaches the string resolver", floor=2)
+    r15_4(prog, rep)
+    r15_5(prog, rep)
+    r15_6(prog, rep)
     rep.rule("R15.1", "graph skip set vs routine-context lookups (seeded pass-through or tolerant lookups)", floor=3)
     rep.rule("R15.2", "dispatch totality: unresolvable -> no-op, unconditional fallback, TypeVar normalisation", floor=7)
     rep.rule("R15.3", "empty graph -> pass-through routine; structured fallback to a warned no-op", floor=4)
